@@ -61,6 +61,9 @@ access(all) contract C {
 const saveTx = `import C from 0x1
 transaction(v: AnyStruct) { prepare(a: auth(Storage) &Account) { a.storage.save(C.H(x: v), to: /storage/v) } }`
 
+// echoScript hands the imported argument straight back: what the runtime makes of the argument before any storage.
+const echoScript = `access(all) fun main(v: AnyStruct): AnyStruct { return v }`
+
 const readScript = `import C from 0x1
 access(all) fun main(): AnyStruct { return getAuthAccount<auth(Storage) &Account>(0x1).storage.copy<C.H>(from: /storage/v)!.x }`
 
@@ -479,9 +482,16 @@ func runStored(args []string) {
 					fail("values", "readback-failed", "reading the stored value failed: "+firstLine(rd.Err), v, rd.Err)
 					return
 				}
-				got, want := canonJSON(nominalOnly(sortFields(projValue(rd.Value, pm)))), canonJSON(nfcAll(nominalOnly(sortFields(normAbs(er, pm)))))
-				if got != want {
-					fail("values", "roundtrip", fmt.Sprintf("stored and re-read value differs\n model: %s\n read:  %s", want, got), v, nil)
+				show := func(x any) any { return nfcAll(nominalOnly(sortFields(x))) }
+				got := canonJSON(show(projValue(rd.Value, pm)))
+				if ec := w.Script(echoScript, useVM, arg); ec.Err != nil {
+					fail("values", "echo-failed", "echo script failed: "+firstLine(ec.Err), v, ec.Err)
+				} else if want := canonJSON(show(projValue(ec.Value, pm))); got != want {
+					// exact: the value read back from storage is the value the transaction received
+					fail("values", "roundtrip", fmt.Sprintf("stored and re-read value differs from the imported value\n imported: %s\n read:     %s", want, got), v, nil)
+				}
+				if g2, want := canonJSON(unboxAll(show(projValue(rd.Value, pm)))), canonJSON(unboxAll(show(normAbs(er, pm)))); g2 != want {
+					fail("values", "roundtrip", fmt.Sprintf("stored and re-read value differs from the model's value\n model: %s\n read:  %s", want, g2), v, nil)
 				}
 				counts["value_roundtrips"]++
 			}
@@ -495,10 +505,6 @@ func runStored(args []string) {
 				return
 			}
 			counts["golden_values"]++
-			// (a) the current encoder writes the bytes the pinned tree wrote
-			if canonJSON(g.Writes) != canonJSON(first) {
-				fail("values", "encoding-changed", fmt.Sprintf("registers differ from the golden corpus\n golden: %v\n now:    %v", g.Writes, first), v, nil)
-			}
 			// (b) the current decoder reads the pinned bytes as the recorded value
 			restore(w, snap)
 			applyWrites(w, g.Writes)
@@ -507,9 +513,22 @@ func runStored(args []string) {
 				fail("values", "golden-undecodable", "golden registers cannot be read: "+firstLine(rd.Err), v, rd.Err)
 				return
 			}
-			got, want := canonJSON(nominalOnly(sortFields(projValue(rd.Value, pm)))), canonJSON(nfcAll(nominalOnly(sortFields(normAbs(g.Abs, pm)))))
-			if got != want {
+			show := func(x any) any { return nfcAll(nominalOnly(sortFields(x))) }
+			goldenRead := canonJSON(show(projValue(rd.Value, pm)))
+			if got, want := canonJSON(unboxAll(show(projValue(rd.Value, pm)))), canonJSON(unboxAll(show(normAbs(g.Abs, pm)))); got != want {
 				fail("values", "golden-decodes-differently", fmt.Sprintf("golden registers decode to another value\n recorded: %s\n read:     %s", want, got), v, nil)
+			}
+			// (a) the current encoder writes the bytes the pinned tree wrote - unless the VALUE that reaches storage changed
+			// (argument import is upstream of the storage codec): then the two register sets decode to different values
+			if canonJSON(g.Writes) != canonJSON(first) {
+				restore(w, snap)
+				applyWrites(w, first)
+				cur := w.Script(readScript, false)
+				if cur.Err == nil && canonJSON(show(projValue(cur.Value, pm))) != goldenRead {
+					counts["golden_value_changed_upstream"]++
+				} else {
+					fail("values", "encoding-changed", fmt.Sprintf("registers differ from the golden corpus although they hold the same value\n golden: %v\n now:    %v", g.Writes, first), v, nil)
+				}
 			}
 			if len(samples) < 2 && counts["golden_values"]%400 == 7 {
 				samples = append(samples, M{"track": "values", "abstract": g.Abs, "registers": g.Writes})
@@ -714,6 +733,29 @@ func runStored(args []string) {
 		return
 	}
 	out.Write(M{"summary": true, "counts": counts, "golden_entries": len(golden), "samples": samples})
+}
+
+// unboxAll drops the optional layer of every non-nil optional: argument import may box a value into an
+// optional (an element of an array whose inferred type is optional), which is not the storage codec's business.
+func unboxAll(x any) any {
+	switch x := x.(type) {
+	case []any:
+		out := make([]any, len(x))
+		for i, e := range x {
+			out[i] = unboxAll(e)
+		}
+		return out
+	case map[string]any:
+		if vs, ok := x["v"].([]any); ok && x["k"] == "opt" && len(vs) == 1 {
+			return unboxAll(vs[0])
+		}
+		out := make(M, len(x))
+		for k, e := range x {
+			out[k] = unboxAll(e)
+		}
+		return out
+	}
+	return x
 }
 
 // nfcAll normalises the text of string and character values: Cadence strings are kept in NFC.
